@@ -1,5 +1,5 @@
 CONSTANTS JCs = {1} Horizon = 3 Ids = {1} Windows <- W0 MaxMissed = 2 MaxDown = 2 MaxOps = 1 MaxLag = 1 MaxFaults = 1 MaxRestarts = 1 MaxTick = 2
-  Pols = {"Allow"} PreBoot = TRUE WithRecon = TRUE Workers = {1, 2}
+  Pols = {"Allow"} PreBoot = TRUE WithRecon = TRUE Workers = {1, 2} Relists = FALSE
 SPECIFICATION Spec
 INVARIANTS TypeOK C02_AtMostOne C02_Requested C20_Served
 PROPERTIES C01_C03_C04_Pass C04_BootHeap
